@@ -330,7 +330,7 @@ def selftest():
 
 def run(ctx):
     res = Res()
-    maxlen = ctx.pick(3, 4)
+    maxlen = ctx.pick(3, 5)
 
     def fixed_cases():
         idx = 0
